@@ -100,6 +100,7 @@ class Ctx:
             else:
                 new.append(v)
         paths = []
+        shutil.rmtree(rep_dir, ignore_errors=True)      # replays of earlier runs are stale
         if new:
             os.makedirs(rep_dir, exist_ok=True)
             seen = set()
